@@ -121,29 +121,12 @@ def orth_one(dt):
         g = sp.Function("colnorm2", real=True)
         goals = []
 
+        cplx = dt == "complex"
+
         def inner_rule(fname):
+            """hypothesis on a buffer F: sum_r conj(F[r, a]) F[r, b] = delta(a, b) g(a)   (columns pairwise orthogonal, g(a) = ||F_a||^2)"""
             F_ = T.fn(fname)
-
-            def rule(f, v, lo, hi):
-                facs = list(sp.Mul.make_args(f))
-                coeff = [x for x in facs if not x.has(v)]
-                rest = []
-                for x in facs:
-                    if x.has(v):
-                        rest += [x.base, x.base] if (isinstance(x, sp.Pow) and x.exp == 2) else [x]
-                if len(rest) != 2:
-                    return None
-
-                def vcol(x):
-                    y = x.args[0] if isinstance(x, sp.conjugate) else x
-                    if getattr(y, "func", None) == F_ and len(y.args) == 3 and y.args[1] == v and not y.args[2].has(v):
-                        return y.args[2], isinstance(x, sp.conjugate)
-                    return None
-                qa, qb = vcol(rest[0]), vcol(rest[1])
-                if qa and qb and (dt == "real" or qa[1] != qb[1]):
-                    return sp.Mul(*coeff) * sp.KroneckerDelta(qa[0], qb[0]) * g(qa[0])
-                return None
-            return rule
+            return symalg.pair_rule(F_, 1, F_, 1, cplx, lambda pa, pb: [sp.KroneckerDelta(pa[2], pb[2]), g(pa[2])])
 
         def name_of(arr):
             return arr.fn(*[z3.IntVal(0)] * len(arr.shape))[0].val.decl().name()
@@ -153,12 +136,9 @@ def orth_one(dt):
         out = L.do_gram(vec, arr((b, n), lambda bb_, r_: one(w, bb_, r_), dtype), ifns)
         l_s = T.tr(l0)
         e = T.tr(one(inner(col(vec, SInt(l0)), out), bb))
-        e = symalg.interchange(e)
-        e = symalg.rewrite_sums(e, inner_rule(name_of(vec)))
-        e = symalg.collapse_deltas(e, in_range=lambda sol, lo, hi: sp.simplify(sol - l_s) == 0)
         want = (1 - g(l_s)) * T.tr(one(inner(col(vec, SInt(l0)), w), bb))
-        goals.append(("P1 do_gram: <vec_l, out> = (1 - ||vec_l||^2) <vec_l, w> for pairwise orthogonal columns (so out is orthogonal to every unit column)",
-                      bool(symalg.is_zero(e - want))))
+        ok_p1, res_p1 = symalg.zero_after(e - want, [inner_rule(name_of(vec))])
+        goals.append(("P1 do_gram: <vec_l, out> = (1 - ||vec_l||^2) <vec_l, w> for pairwise orthogonal columns (so out is orthogonal to every unit column)", bool(ok_p1)))
         # ---------------------------------------------------------------- (P2) the real body over the contract of do_gram
         A, a = idx.make_abstract_op("A", n, n, dtype)
         V = state_array("V", (b, n, m + 2), dtype)
@@ -190,17 +170,12 @@ def orth_one(dt):
         i_s, a_s = T.tr(i.term), T.tr(a0)
         rule_V = inner_rule(name_of(V))
 
-        def red(expr, distinct=()):
-            e_ = symalg.interchange(expr)
-            e_ = symalg.rewrite_sums(e_, rule_V)
-            e_ = symalg.collapse_deltas(e_, known_zero=distinct)
-            return symalg.normal(e_)
-        e_ii = red(T.tr(one(inner(col(Vn, i), col(Vn, i)), bb)))
-        goals.append(("P3 <Vn_i, Vn_i> = 1", bool(symalg.is_zero(e_ii - 1))))
-        e_ai = red(T.tr(one(inner(col(Vn, SInt(a0)), col(Vn, i)), bb)), distinct=[(a_s, i_s)])
-        goals.append(("P3 <Vn_a, Vn_i> = 0 for a != i", bool(symalg.is_zero(e_ai))))
-        e_al = red(T.tr(one(inner(col(Vn, SInt(a0)), col(Vn, SInt(l0))), bb)), distinct=[(a_s, i_s), (l_s, i_s)])
-        goals.append(("P3 <Vn_a, Vn_l> = delta_al ||V_a||^2 for a, l != i", bool(symalg.is_zero(e_al - sp.KroneckerDelta(a_s, l_s) * g(a_s)))))
+        ok_ii, _r = symalg.zero_after(T.tr(one(inner(col(Vn, i), col(Vn, i)), bb)) - 1, [rule_V])
+        goals.append(("P3 <Vn_i, Vn_i> = 1", bool(ok_ii)))
+        ok_ai, _r = symalg.zero_after(T.tr(one(inner(col(Vn, SInt(a0)), col(Vn, i)), bb)), [rule_V], distinct=[(a_s, i_s)])
+        goals.append(("P3 <Vn_a, Vn_i> = 0 for a != i", bool(ok_ai)))
+        ok_al, _r = symalg.zero_after(T.tr(one(inner(col(Vn, SInt(a0)), col(Vn, SInt(l0))), bb)) - sp.KroneckerDelta(a_s, l_s) * g(a_s), [rule_V], distinct=[(a_s, i_s), (l_s, i_s)])
+        goals.append(("P3 <Vn_a, Vn_l> = delta_al ||V_a||^2 for a, l != i", bool(ok_al)))
         return goals
     return K.run_paths(f"C14/lanczos orthonormality[{dt}]", FN + "lanczos_fact", thunk, dict(engine="LANCZOS", part="orth", dtype=dt),
                        extra_backend=dict(while_loop_winfo=K.capture_loop(store)))
